@@ -107,6 +107,18 @@ def gen_(rng, i, tier, kind):
             edits.insert(rng.randint(0, len(edits)), {"e": "cons", "c": c})
         # products and powers of a model that already carries penalty terms blow up the model run: keep them before the
         # first constraint only
+        # powers before the first constraint make exact rationals of 60 and more bits, which the constraint methods then
+        # push through floats: keep cubes out of these histories and at most one square
+        kept, squares = [], 0
+        for e in edits:
+            if e["e"] == "ipow" and e["n"] >= 3:
+                continue
+            if e["e"] == "ipow" and e["n"] == 2:
+                squares += 1
+                if squares > 1:
+                    continue
+            kept.append(e)
+        edits = kept
         first = next(j for j, e in enumerate(edits) if e["e"] == "cons")
         # ... but a product with a one-term operand (dict or model) stays: it takes the general product path (clear and
         # rebuild) without growing the model, and the ancilla counter has to survive it
